@@ -21,8 +21,8 @@ ASSUMPTIONS = [
     "single inheritance hierarchies",
 ]
 PLAN = {
-    "quick": {"shards": 8, "shard_timeout": 300, "case_timeout": 20, "grammars": 1500, "max_case_timeouts": 2},
-    "thorough": {"shards": 16, "shard_timeout": 1500, "case_timeout": 30, "grammars": 60000, "max_case_timeouts": 10},
+    "quick": {"shards": 8, "shard_timeout": 300, "case_timeout": 20, "grammars": 4000, "max_case_timeouts": 4},
+    "thorough": {"shards": 16, "shard_timeout": 3600, "case_timeout": 30, "grammars": 300000, "max_case_timeouts": 30},
 }
 THRESHOLDS = {
     "quick": {"symbols_compared": 8000, "grammars_compared": 1200, "usable_compared": 1000, "corpus_grammars": 5, "recursive_symbols_seen": 500, "unreachable_symbols_seen": 200, "kind:union": 100, "kind:tuple": 100, "kind:bool": 100, "expansion_grammars": 100},
